@@ -5,13 +5,16 @@ import (
 	"bytes"
 	"encoding/json"
 	"encoding/xml"
+	"errors"
 	"fmt"
+	"io"
 	"math"
 	"net/http"
 	"net/http/httptest"
 	"reflect"
 	"strings"
 	"testing"
+	"testing/iotest"
 
 	"github.com/gookit/rux"
 	"github.com/gookit/rux/pkg/render"
@@ -264,17 +267,46 @@ func propHelpers(t *rapid.T) {
 	case "Blob", "Stream":
 		data := rapid.SliceOfN(rapid.Byte(), 0, 40).Draw(t, "bytes")
 		wantCT = rapid.SampledFrom([]string{"application/octet-stream", "image/png", "text/csv; charset=utf-8"}).Draw(t, "ct")
+		// readers differ in how they deliver their last bytes: alone, or together with io.EOF / an error
+		readerKind := "bytes.Reader"
+		if helper == "Stream" {
+			readerKind = rapid.SampledFrom([]string{"bytes.Reader", "DataErrReader", "OneByteReader", "HalfReader", "data-with-error", "data-then-error"}).Draw(t, "reader")
+		}
+		wantErrs := 0
 		res = run(nil, "", func(c *rux.Context) error {
 			if helper == "Blob" {
 				c.Blob(status, wantCT, data)
-			} else {
-				c.Stream(status, wantCT, bytes.NewReader(data))
+				return nil
 			}
+			var rd io.Reader = bytes.NewReader(data)
+			switch readerKind {
+			case "DataErrReader":
+				rd = iotest.DataErrReader(rd)
+			case "OneByteReader":
+				rd = iotest.OneByteReader(rd)
+			case "HalfReader":
+				rd = iotest.HalfReader(rd)
+			case "data-with-error":
+				rd = &failingReader{data: data, together: true}
+				wantErrs = 1
+			case "data-then-error":
+				rd = &failingReader{data: data}
+				wantErrs = 1
+			}
+			c.Stream(status, wantCT, rd)
+			if len(c.Errors) != wantErrs {
+				return fmt.Errorf("Stream from a %s: %d entries in Context.Errors, want %d", readerKind, len(c.Errors), wantErrs)
+			}
+			c.Errors = c.Errors[:0]
 			return nil
 		})
+		ev.Class("stream-reader:" + readerKind)
 		checkBody = func(b []byte) error {
+			if res.retErr != nil {
+				return res.retErr
+			}
 			if !bytes.Equal(b, data) {
-				return fmt.Errorf("body %q, given %q", b, data)
+				return fmt.Errorf("body %q, reader (%s) delivered %q", b, readerKind, data)
 			}
 			return nil
 		}
@@ -365,6 +397,28 @@ func propHelpers(t *rapid.T) {
 }
 
 func TestPropHelpers(t *testing.T) { rapid.Check(t, propHelpers) }
+
+// failingReader delivers its data and then fails - either together with the last bytes or on the next call.
+type failingReader struct {
+	data     []byte
+	together bool
+	done     bool
+}
+
+func (f *failingReader) Read(p []byte) (int, error) {
+	if f.done {
+		return 0, errors.New("source failed")
+	}
+	n := copy(p, f.data)
+	f.data = f.data[n:]
+	if len(f.data) == 0 {
+		f.done = true
+		if f.together {
+			return n, errors.New("source failed")
+		}
+	}
+	return n, nil
+}
 
 func isASCII(s string) bool {
 	for _, r := range s {
